@@ -967,19 +967,24 @@ class Inliner:
         # phase 0: loops over constant tables become straight-line code everywhere (also inside helpers, so that a helper whose only
         # loop was a dispatch table has no `return` inside a loop any more and can be inlined)
         for m in self.prog.modules.values():
+            before = len(self.inlined_calls)
             for node in ast.walk(m.tree):
                 if isinstance(node, (ast.FunctionDef, ast.AsyncFunctionDef)):
                     cls0 = node._parent if isinstance(getattr(node, "_parent", None), ast.ClassDef) else _enclosing_class(node)
                     node.body = self._unroll_tables_in(node.body, m, cls0) or [_pass(node)]
-            relink(m)
+            if len(self.inlined_calls) != before:
+                relink(m)
         for m in self.prog.modules.values():
+            before = len(self.inlined_calls)
             for node in ast.walk(m.tree):
                 if isinstance(node, (ast.FunctionDef, ast.AsyncFunctionDef)):
                     cls = node._parent if isinstance(getattr(node, "_parent", None), ast.ClassDef) else _enclosing_class(node)
                     node.body = self.expand_block(node.body, m, cls, 0, frozenset({qualname_of(node)})) or [_pass(node)]
-            relink(m)
+            if len(self.inlined_calls) != before:
+                relink(m)
         # expression helpers called from lambda bodies and module-level expressions (operator tables)
         for m in self.prog.modules.values():
+            before_l = len(self.inlined_calls)
             holders = [n for n in ast.walk(m.tree) if isinstance(n, ast.Lambda)]
             for lam in holders:
                 for _ in range(6):
@@ -1005,7 +1010,8 @@ class Inliner:
                         break
                     if done:
                         break
-            relink(m)
+            if len(self.inlined_calls) != before_l:
+                relink(m)
         # helpers that became fully transparent: inlined at least once and no call to them is left anywhere in the package
         inlined = {x.split(" <- ")[0] for x in self.inlined_calls}
         remaining = set()
@@ -1036,7 +1042,10 @@ class Inliner:
                         if all(id(r) in inside for r in refs) and len(body) > 1:
                             body.remove(st)
                             removed.add(qualname_of(st))
-            relink(m)
+                            m._dirty = True
+            if getattr(m, "_dirty", False):
+                m._dirty = False
+                relink(m)
         self.removed = removed
         return self
 
